@@ -87,6 +87,24 @@ pub fn judge(ctx: &mut Ctx, v: &Version, source: &str, loose: bool) {
         ctx.violation(&format!("fields-differ/{}/{}", f, cls), w, format!("{:?} -> {:?} -> {:?}: field {} differs ({:?} vs {:?})", source, printed, back.to_string(), f, v, back));
         return;
     }
+    // str::parse::<Version>() must read the printed form like Version::parse
+    ctx.eval(1);
+    match guarded(|| printed.parse::<Version>()) {
+        Ok(Ok(f)) => {
+            if let Some(fl) = fields_equal(&back, &f) {
+                ctx.violation(&format!("from_str-differs/{}/{}", fl, cls), w, format!("{:?} read by str::parse differs from Version::parse in {}", printed, fl));
+                return;
+            }
+        }
+        Ok(Err(e)) => {
+            ctx.violation(&format!("from_str-fails/{}", cls), w, format!("{:?} is accepted by Version::parse but str::parse fails: {}", printed, e));
+            return;
+        }
+        Err(p) => {
+            ctx.violation(&format!("panic/from_str/{}", p.site), w, p.message);
+            return;
+        }
+    }
     let again = back.to_string();
     if again != printed {
         ctx.violation(&format!("not-fixed-point/{}", cls), w, format!("printed {:?}, re-parsed and printed {:?}", printed, again));
